@@ -408,7 +408,18 @@ fn serial(w: &[&str]) -> String {
                     })
                 })
                 .collect();
-            let lists: Vec<String> = hs.into_iter().map(|h| join_u32(&h.join().unwrap())).collect();
+            // per thread: first serial, then the (wrapping) difference to the previous one — a shorter line, same information
+            let lists: Vec<String> = hs
+                .into_iter()
+                .map(|h| {
+                    let v = h.join().unwrap();
+                    let mut d = Vec::with_capacity(v.len());
+                    for (i, x) in v.iter().enumerate() {
+                        d.push(if i == 0 { *x } else { x.wrapping_sub(v[i - 1]) });
+                    }
+                    join_u32(&d)
+                })
+                .collect();
             format!("start={};{}", probe, lists.join("|"))
         }
         Some("burn") => {
@@ -457,8 +468,8 @@ struct Call {
 
 #[derive(Debug, Default)]
 struct WState {
-    /// answers: (number of times the call yields Pending first, max bytes accepted)
-    script: VecDeque<(u32, usize)>,
+    /// answers: (slow?, number of times the call yields Pending first, max bytes accepted)
+    script: VecDeque<(bool, u32, usize)>,
     calls: Vec<Call>,
     /// which sender task the harness scheduler is polling right now
     cur_task: usize,
@@ -485,11 +496,19 @@ struct ScriptWrite(Arc<Mutex<WState>>);
 #[async_trait::async_trait]
 impl WriteHalf for ScriptWrite {
     async fn sendmsg(&mut self, buf: &[u8], fds: &[BorrowedFd<'_>]) -> io::Result<usize> {
-        let (yields, max) = {
+        let (slow, yields, max) = {
             let mut st = self.0.lock().unwrap();
-            st.script.pop_front().unwrap_or((0, usize::MAX))
+            st.script.pop_front().unwrap_or((false, 0, usize::MAX))
         };
         let ids: Vec<(u64, u64)> = fds.iter().map(|f| ident(*f)).collect();
+        if slow {
+            // a transport that stays busy for a while: the tasks waiting for the writer mutex get polled before and
+            // after a 12 ms pause, i.e. they have been waiting 24x longer than async_lock's 0.5 ms starvation threshold
+            // and are entitled to the mutex as soon as it is released
+            YieldN(4).await;
+            std::thread::sleep(std::time::Duration::from_millis(12));
+            YieldN(4).await;
+        }
         // the transport is not ready: other tasks get to run while this call is suspended
         YieldN(yields).await;
         let n = max.max(1).min(buf.len());
@@ -561,9 +580,11 @@ fn wire(w: &[&str]) -> String {
     let mut script = VecDeque::new();
     if w[2] != "-" {
         for t in w[2].split(',') {
+            let slow = t.starts_with('s');
+            let t = if slow { &t[1..] } else { t };
             let y = t.chars().take_while(|c| *c == 'p').count();
             match t[y..].parse::<usize>() {
-                Ok(n) => script.push_back((y as u32, n)),
+                Ok(n) => script.push_back((slow, y as u32, n)),
                 Err(_) => return "BADCASE".into(),
             }
         }
